@@ -35,9 +35,19 @@ def make_apply(sampler):
         name, args, kwargs = op
         effects: List[Any] = []
 
+        def sleeper(seconds):
+            # what time.sleep() itself does with a value it cannot wait for
+            if seconds != seconds:
+                raise ValueError("Invalid value NaN (not a number)")
+            if seconds in (float("inf"), float("-inf")):
+                raise OverflowError("timestamp too large to convert to C _PyTime_t")
+            if seconds < 0:
+                raise ValueError("sleep length must be non-negative")
+            effects.append((seconds * 1000.0, sampler(obj)))
+
         def recorder(duration, **kw):
             # the real sleep validates the duration; the injected callable records it
-            return real_sleep(duration, sleep_func=lambda seconds: effects.append((seconds * 1000.0, sampler(obj))))
+            return real_sleep(duration, sleep_func=sleeper)
 
         saved = A.sleep
         A.sleep = recorder
@@ -70,13 +80,13 @@ def led_space(tier):
     vals = [-1, 0, 1, 127, 254, 255, 256, 2.5, True, 0.4, 0.999, 1e-9, -0.0, float("nan"), float("inf")] + ([64, 200, -0.5, 255.5, False, 254.999, 1.0] if tier == "thorough" else [])
     ops: List[Op] = [("on", (), {}), ("off", (), {}), ("toggle", (), {}), ("get_state", (), {}), ("get_brightness", (), {})]
     ops += [("set_brightness", (v,), {}) for v in vals]
-    for d in (-1, 0, 10, 2.5):
+    for d in (-1, 0, 10, 2.5, float("nan"), float("inf")):
         for t in (-1, 0, 1, 2, 3):
             ops.append(("blink", (d,), {"times": t}))
     ops.append(("blink", (7,), {}))
     steps = (-1, 0, 1, 100, 300) + ((5, 254) if tier == "thorough" else ())
     for s in steps:
-        for dl in (-1, 0, 5):
+        for dl in (-1, 0, 5, float("nan"), float("inf")):
             ops.append(("fade_in", (), {"step": s, "delay_ms": dl}))
             ops.append(("fade_out", (s, dl), {}))
     ops += [("fade_in", (), {}), ("fade_out", (), {})]
@@ -152,14 +162,14 @@ def rgb_space(tier):
         ops.append(("on", c, {}))
     ops.append(("on", (), {"blue": 9}))
     for c in colours + bad[:3]:
-        for dur, steps in ((1000, 50), (0, 5), (100, 1), (10, 3), (-1, 5), (100, 0), (100, -2), (7.5, 4), (100, 7), (130, 50), (30, 50), (11, 7), (5, 3), (1, 2), (3, 2), (99, 100)):
+        for dur, steps in ((1000, 50), (0, 5), (100, 1), (10, 3), (-1, 5), (100, 0), (100, -2), (7.5, 4), (100, 7), (130, 50), (30, 50), (11, 7), (5, 3), (1, 2), (3, 2), (99, 100), (float("nan"), 3), (float("inf"), 3)):
             ops.append(("fade", c, {"duration_ms": dur, "steps": steps}))
     ops.append(("fade", (255, 0, 0), {"duration_ms": 130}))
     for steps in (2.5, 0.5, 7.25, 4.0, True):
         ops.append(("fade", (200, 100, 0), {"duration_ms": 20, "steps": steps}))
     ops.append(("fade", (5, 1, 3), {}))
     for c in colours[:4] + bad[:3]:
-        for times, delay in ((1, 200), (2, 0), (3, 15), (0, 10), (-1, 10), (1, -1), (2, 2.5)):
+        for times, delay in ((1, 200), (2, 0), (3, 15), (0, 10), (-1, 10), (1, -1), (2, 2.5), (1, float("nan")), (2, float("inf"))):
             ops.append(("blink", c, {"times": times, "delay_ms": delay}))
 
     def canon(rgb):
@@ -310,9 +320,9 @@ def motor_space(tier):
     ops += [("backward", (v,), {}) for v in speeds[:8] + [0.001, float("nan")]] + [("backward", (), {})]
     ops += [("ramp", (0.002, 40), {}), ("ramp", (float("nan"), 40), {}), ("run_for", (10, 0.002), {})]
     for tgt in (-2, -1, 0, 0.5, 1, "x"):
-        for dur in (-1, 0, 100, 33, 5, 0.5, 19, 19.99, True, 20):
+        for dur in (-1, 0, 100, 33, 5, 0.5, 19, 19.99, True, 20, float("nan"), float("inf")):
             ops.append(("ramp", (tgt, dur), {}))
-    for dur in (-1, 0, 50, 2.5):
+    for dur in (-1, 0, 50, 2.5, float("nan"), float("inf")):
         for sp in (-1, 0, 0.5, 2, "x"):
             ops.append(("run_for", (dur, sp), {}))
 
